@@ -6,13 +6,27 @@ COMMON_ASSUME = [
 NOT_APPLICABLE = {}
 PROPS = {
     "C05": {
-        "claim": "TODO",
-        "note": "TODO",
+        "claim": "Coq theorems (closed, no axioms): the subtype relation is defined co-inductively as the greatest relation closed under ONE "
+                 "executable rule function transcribed from spec/Candid.md; the decision procedure sub_dec (finite greatest fixed point over "
+                 "sub-term pairs) is proved correct for EVERY environment and pair of types (likewise eq_dec for structural equality); the "
+                 "relation is reflexive and closed under the rules; rule application is monotone and local. Transitivity is REFUTED for the "
+                 "spec's own rules by a machine-checked witness (known finding). The proved oracle is tied to /repo by a differential run of "
+                 "subtype, subtype_with_config, equal, subtype_check_all, service_compatible, service_compatibility_report and service_equal, "
+                 "including query sequences sharing one memo, plus direct predicates (reflexivity, equal => subtype both ways, invariance "
+                 "under renaming/reordering of definitions, report empty iff compatible, history independence, transitivity on null-free types).",
+        "note": "Not proved in Coq: that the memoising Rust algorithm (subtype_, with the repaired memo restoration) computes sub_dec for all "
+                "inputs and histories -- this part is differential only (the oracle being proved makes every disagreement a real failing "
+                "input). TypeInner::Knot/Unknown and the recursion-depth limit are outside the model. Trusted: Coq kernel, extraction, glue.",
         "props_file": "props/C05.v",
         "shards": (4, 16),
-        "rule": "TODO",
-        "assumptions": COMMON_ASSUME,
-        "trusted_base": [],
+        "rule": "cases: fixed corpus (transitivity witness, stale-memo witness, recursive lists, variants, references) then random "
+                "environments of 0-8 definitions (direct/mutual recursion, alias chains, opt/vec-guarded cycles, functions, services) with "
+                "pairs related by random upgrade steps, near misses and unrelated types; two-version environments (definition-wise mutated "
+                "copies); query sequences in random order with repetitions sharing one Gamma; .did programs through the upgrade entry points "
+                "(exercising merge_type renaming); thorough adds exhaustive ordered pairs over a bounded constructor set with <= 2 "
+                "definitions. Non-trivial = pair mentions a definition, an opt, or has > 4 nodes; distinct = distinct (op, arguments).",
+        "assumptions": COMMON_ASSUME + ["Knot (Rust-native recursive types) and Unknown are never generated"],
+        "trusted_base": ["modelled, not verified: HashMap/HashSet (as finite maps/sets), RecursionDepth guard (not modelled)"],
     },
     "C16": {
         "claim": "Coq theorems (closed, no axioms) over an executable model of ic_principal's text codec (bitwise CRC-32, value-level RFC 4648 "
